@@ -33,7 +33,7 @@ import collections
 
 VERIF = os.path.dirname(os.path.dirname(os.path.abspath(__file__)))
 EXIT_OK, EXIT_VIOLATION, EXIT_HARNESS = 0, 1, 2
-MAX_REPLAY_FILES = 5
+MAX_REPLAY_FILES = int(os.environ.get("VERIF_MAX_REPLAYS", "5"))
 
 
 def digest(obj):
